@@ -146,7 +146,7 @@ class Outcome:
     __slots__ = ('kind', 'value', 'stored', 'tag')
 
     def __init__(self, kind, value=None, stored=False, tag=''):
-        self.kind = kind        # 'return' | 'raise400' | 'any'
+        self.kind = kind        # 'return' | 'raise400' | 'propagate' (value = exception type name) | 'any'
         self.value = value
         self.stored = stored    # True: store == {name: value}; False: store untouched
         self.tag = tag
@@ -172,6 +172,31 @@ def _strict(s):
 
 
 TRANSFORMS['strict'] = _strict
+
+# user-supplied transforms whose failure is NOT a ValueError (only ValueError is documented to become a 400):
+CHOICES = ('1', 'x', 'a', 'A1')
+_TABLE = {c: c.upper() for c in CHOICES}
+
+
+def _first_match(s):                      # the 'first match' idiom: StopIteration for an unknown element
+    return next(c for c in CHOICES if c == s)
+
+
+def _lookup(s):                           # KeyError
+    return _TABLE[s]
+
+
+def _raiser(exc_type):
+    def tr(s):
+        if s not in CHOICES:
+            raise exc_type('no conversion for %r' % (s,))
+        return s
+    return tr
+
+
+TRANSFORMS.update({'first_match': _first_match, 'lookup': _lookup, 'type_error': _raiser(TypeError),
+                   'generator_exit': _raiser(GeneratorExit), 'stop_async': _raiser(StopAsyncIteration),
+                   'runtime_error': _raiser(RuntimeError)})
 
 
 def _bounds(v, lo, hi):
@@ -261,6 +286,10 @@ def ref_getter(ref_params, ambiguous, op, json_loads=json.loads):
             return [Outcome('return', [tr(e) for e in vals], True, 'list-transformed')]
         except ValueError:
             return [Outcome('raise400', tag='invalid')]
+        except (Exception, GeneratorExit) as ex:
+            # the transform failed with something else: no value exists, so nothing may be returned or stored;
+            # the exception of the user's callable comes out (a 400 would also report "no value")
+            return [Outcome('propagate', type(ex).__name__, False, 'transform-raised'), Outcome('raise400', tag='transform-raised')]
     return convert(kind, vals[-1], op, json_loads)
 
 
